@@ -216,3 +216,10 @@ def run(rep: Report, prog: Program, tier: str) -> None:
                  "premise of the exempted assertion in pack_rtcp_packet: every RTCP payload is a multiple of 4 bytes (rule C07-LEN)", 1)
     import_rules(rep, prog, tier, PROP, "C05-PREMISE-BOUND", "C10", ["C10-BOUND"],
                  "premise of the exempted assertion in JitterBuffer.remove: the ring never changes its size (rule C10-BOUND)", 2)
+
+    # (h) Optional fields in arithmetic; (i) serial-number discipline on the receive path (a non-modular difference of two TSNs / sequence numbers is
+    # negative or huge and ends in struct.pack or an index)
+    from .common import none_arith_rule, serial_subrule
+    none_arith_rule(rep, prog, PROP, "C05-NONE")
+    serial_subrule(rep, prog, tier, PROP, "C05-SERIAL", ["rtcsctptransport", "rtcrtpreceiver", "jitterbuffer", "rtp"], 30,
+                   "serial-number discipline (C17 rule set) on the receive path: a raw difference / comparison of wrapping counters yields negative or huge values that end in struct.pack or an index")
